@@ -38,6 +38,9 @@ type Line struct {
 	Sep   string `json:"sep,omitempty"`
 	Trail string `json:"trail,omitempty"`
 	Text  string `json:"text,omitempty"`
+	// Pad lengthens the line by that many bytes without changing what it says: comment text
+	// for a comment, trailing blanks otherwise (lines longer than common buffer sizes)
+	Pad int `json:"pad,omitempty"`
 }
 
 // Rewrite is one rewrite of the file under autorefresh
@@ -47,6 +50,25 @@ type Rewrite struct {
 	Append bool `json:"append,omitempty"`
 	// Pause: milliseconds to wait before this rewrite (0 = back to back with the previous one)
 	Pause int `json:"pause,omitempty"`
+	// Burst: the rewrite is preceded, with nothing in between, by a rewrite to a large
+	// well-formed file (BigLines followed by Filler generated entries): two updates whose
+	// reloads can overlap; the later content must win and stay
+	Filler   int    `json:"filler,omitempty"`
+	BigLines []Line `json:"biglines,omitempty"`
+}
+
+// fillerText renders n generated entries (hardware addresses no probe uses)
+func fillerText(n int, v6 bool) string {
+	var sb strings.Builder
+	sb.Grow(n * 40)
+	for i := 0; i < n; i++ {
+		if v6 {
+			fmt.Fprintf(&sb, "02:ff:00:%02x:%02x:%02x 2001:db8:f::%x\n", byte(i>>16), byte(i>>8), byte(i), i+1)
+		} else {
+			fmt.Fprintf(&sb, "02:ff:00:%02x:%02x:%02x 10.%d.%d.%d\n", byte(i>>16), byte(i>>8), byte(i), byte(i>>16), byte(i>>8), byte(i))
+		}
+	}
+	return sb.String()
 }
 
 // Case is one lease-file scenario
@@ -108,11 +130,26 @@ func Render(lines []Line, noFinalNL bool) string {
 		case "bad-mac":
 			sb.WriteString(l.Text + sep + l.IP)
 		}
+		if l.Pad > 0 && l.Kind != "empty" {
+			ch := " "
+			if l.Kind == "comment" {
+				ch = "x"
+			}
+			sb.WriteString(strings.Repeat(ch, l.Pad))
+		}
 		if i < len(lines)-1 || !noFinalNL {
 			sb.WriteString("\n")
 		}
 	}
 	return sb.String()
+}
+
+// clip shortens a file text for messages
+func clip(text string) string {
+	if len(text) <= 3000 {
+		return text
+	}
+	return text[:1500] + fmt.Sprintf("\n...[%d bytes]...\n", len(text)-2500) + text[len(text)-1000:]
 }
 
 // ParseModel is the harness's own reading of a lease file: nil + error when
@@ -469,17 +506,23 @@ func Exec(c Case) (res core.Result) {
 		}
 	}
 	res.Classes = []string{fam}
+	for _, l := range c.Lines {
+		if l.Pad >= 65490 {
+			res.Classes = append(res.Classes, "line-longer-than-64k")
+			break
+		}
+	}
 	if merr != nil {
 		res.Classes = append(res.Classes, "malformed:"+bad)
 		if err == nil {
-			res.Viol = core.Violate("C10/"+fam+"/malformed-file-accepted/"+bad, "file with a malformed line (%v) was accepted:\n%s", merr, text)
+			res.Viol = core.Violate("C10/"+fam+"/malformed-file-accepted/"+bad, "file with a malformed line (%v) was accepted:\n%s", merr, clip(text))
 			return
 		}
 		res.NonTrivial = len(c.Lines) >= 3
 		return
 	}
 	if err != nil {
-		res.Viol = core.Violate("C10/"+fam+"/well-formed-file-rejected", "well-formed file rejected (%v):\n%s", err, text)
+		res.Viol = core.Violate("C10/"+fam+"/well-formed-file-rejected", "well-formed file rejected (%v):\n%s", err, clip(text))
 		return
 	}
 	var v *core.Violation
@@ -489,7 +532,7 @@ func Exec(c Case) (res core.Result) {
 		v = checkMapping4(h4, model, "")
 	}
 	if v != nil {
-		v.Message += "\nfile:\n" + text
+		v.Message += "\nfile:\n" + clip(text)
 		res.Viol = v
 		return
 	}
@@ -564,15 +607,20 @@ func sameIP(a, b net.IP) bool {
 // serve either the old or the new value, and once any lookup served a
 // new-only value no later lookup may serve an old-only value (one switch point)
 func (ri *refreshInst) awaitSwitch(prev, next map[string]net.IP, deadline time.Duration) (bool, *core.Violation) {
+	return ri.awaitStages([]map[string]net.IP{prev, next}, deadline)
+}
+
+// awaitStages generalises awaitSwitch to a sequence of file contents written one after the
+// other (old, intermediate..., last): every lookup must serve the value of one of them, the
+// stages observed never go backwards (each switch is all-or-nothing), and the last one is
+// reached before the deadline
+func (ri *refreshInst) awaitStages(stages []map[string]net.IP, deadline time.Duration) (bool, *core.Violation) {
 	keys := map[string]bool{}
-	for k := range prev {
-		if len(k) <= 32 || ri.v6 {
-			keys[k] = true
-		}
-	}
-	for k := range next {
-		if len(k) <= 32 || ri.v6 {
-			keys[k] = true
+	for _, m := range stages {
+		for k := range m {
+			if len(k) <= 32 || ri.v6 {
+				keys[k] = true
+			}
 		}
 	}
 	var ks []string
@@ -580,7 +628,8 @@ func (ri *refreshInst) awaitSwitch(prev, next map[string]net.IP, deadline time.D
 		ks = append(ks, k)
 	}
 	sort.Strings(ks)
-	switched := false
+	last := len(stages) - 1
+	lo := 0 // the mapping in force is known to be at least this stage
 	end := time.Now().Add(deadline)
 	for {
 		allNew := true
@@ -589,18 +638,32 @@ func (ri *refreshInst) awaitSwitch(prev, next map[string]net.IP, deadline time.D
 			if v != nil {
 				return false, v
 			}
-			o, n := prev[k], next[k]
-			isOld, isNew := sameIP(got, o), sameIP(got, n)
-			if !isOld && !isNew {
-				return false, core.Violate("C10/refresh/neither-old-nor-new", "during refresh %s is served %v; old mapping says %v, new mapping %v", k, got, o, n)
-			}
-			if isNew && !isOld {
-				switched = true
-			}
-			if isOld && !isNew {
-				if switched {
-					return false, core.Violate("C10/refresh/mixed-mapping", "after the new mapping had been observed, %s is still served its old value %v (new: %v): the update is not all-or-nothing", k, got, n)
+			first, any, reach := -1, false, false
+			for j, m := range stages {
+				if sameIP(got, m[k]) {
+					any = true
+					if j >= lo && first < 0 {
+						first = j
+					}
+					if j >= lo {
+						reach = true
+					}
 				}
+			}
+			if !any {
+				var vals []string
+				for _, m := range stages {
+					vals = append(vals, fmt.Sprint(m[k]))
+				}
+				return false, core.Violate("C10/refresh/neither-old-nor-new", "during refresh %s is served %v; the contents written say, in order, %v", k, got, vals)
+			}
+			if !reach {
+				return false, core.Violate("C10/refresh/mixed-mapping", "after the mapping of content #%d had been observed, %s is served %v, its value in an earlier content (content #%d says %v): the update is not all-or-nothing, or an older content came back", lo, k, got, lo, stages[lo][k])
+			}
+			if first > lo {
+				lo = first
+			}
+			if !sameIP(got, stages[last][k]) {
 				allNew = false
 			}
 		}
@@ -699,8 +762,10 @@ func execRefresh(c Case) (res core.Result) {
 	sawBadAfterGood, lastGood := false, false
 	fileLen := len(padded(text))
 	lastWrite := time.Now()
+	sawBurst := false
 	for i, rw := range c.Rewrites {
 		var ntext string
+		var bigModel map[string]net.IP
 		if rw.Pause > 0 {
 			time.Sleep(time.Duration(rw.Pause) * time.Millisecond)
 		}
@@ -721,6 +786,22 @@ func execRefresh(c Case) (res core.Result) {
 		} else {
 			ntext = Render(rw.Lines, false)
 			data := padded(ntext)
+			if rw.Filler > 0 {
+				bigText := Render(rw.BigLines, false) + fillerText(rw.Filler, c.V6)
+				// only the first few generated entries are probed
+				if m, err := ParseModel(Render(rw.BigLines, false)+fillerText(3, c.V6), c.V6); err == nil {
+					big := []byte(bigText)
+					if len(big) < fileLen {
+						big = append(big, []byte("#"+strings.Repeat("b", fileLen-len(big)-2)+"\n")...)
+					}
+					fileLen = len(big)
+					if err := writeInPlace(path, big); err != nil {
+						res.Skipped = "io"
+						return
+					}
+					bigModel = m
+				}
+			}
 			if len(data) < fileLen {
 				// keep the file length: never shrink (an earlier append made it longer)
 				data = append(data, []byte("#"+strings.Repeat("q", fileLen-len(data)-2)+"\n")...)
@@ -758,7 +839,21 @@ func execRefresh(c Case) (res core.Result) {
 		// no further file event is generated while waiting: an implementation that
 		// drops the event of this update (throttling, coalescing without a trailing
 		// reload) would otherwise be rescued by the harness
-		ok, v := ri.awaitSwitch(cur, next, refreshDeadline)
+		stages := []map[string]net.IP{cur, next}
+		if bigModel != nil {
+			stages = []map[string]net.IP{cur, bigModel, next}
+		}
+		ok, v := ri.awaitStages(stages, refreshDeadline)
+		if v == nil && ok && bigModel != nil {
+			// the reload of the large content may still be running: it must not be published
+			// over the newer one
+			sawBurst = true
+			if hv := ri.holdSteady(next, bigModel, 150*time.Millisecond); hv != nil {
+				hv.Signature = "C10/refresh/older-content-comes-back"
+				hv.Message = "two rewrites in a row (a large file, then this one); after this one's mapping was in force: " + hv.Message
+				v = hv
+			}
+		}
 		if v != nil {
 			v.Message = fmt.Sprintf("rewrite %d: %s", i, v.Message)
 			res.Viol = v
@@ -771,9 +866,12 @@ func execRefresh(c Case) (res core.Result) {
 		cur = next
 		lastGood = true
 	}
-	res.NonTrivial = sawBadAfterGood
+	res.NonTrivial = sawBadAfterGood || sawBurst
 	if sawBadAfterGood {
 		res.Classes = append(res.Classes, "bad-rewrite-after-good")
+	}
+	if sawBurst {
+		res.Classes = append(res.Classes, "rewrite-burst")
 	}
 	return
 }
